@@ -301,12 +301,24 @@ let verdict case impl =
          if fu <> "ok" then "diff follow-up-failed-and-no-live-pool-connection-was-observed-at-the-mock" else
          (* ---- 2. does some admissible run of the model give exactly these outcomes? ---- *)
          let independent = Array.for_all (fun c -> c <= 1) seen in
+         (* requests the mock never saw: a non-idempotent one (no retry) was still in the channel when the
+            router ended -> the connection's ROOT CAUSE (C10_root_cause: one error per connection, handlers and
+            drained tasks alike), or it was refused after close() -> ChannelError, or it found no connection ->
+            the pool's error.  The root causes are those of the connections that broke in this case (model). *)
+         let root_classes =
+           List.concat_map (fun t ->
+             List.concat_map (fun (st, _) ->
+               match st.c_status with
+               | Broken e | TearingDown e | Draining e -> classes_of_err e
+               | Open -> []) (candidates t)) conns in
          let unseen_ok = ref true in
          for m = 1 to nres do
            if seen.(m) = 0 then begin
              match String.split_on_char ':' res_arr.(m - 1) with
              | ["cancelled"] -> ()
-             | ["err"; c] when c = "pool" || starts_with "broken." c -> ()
+             | ["err"; c] when c = "pool" || c = "broken.ChannelError" -> ()
+             | ["err"; c] when (not idem) && List.mem c root_classes -> ()
+             | ["err"; c] when idem && (starts_with "broken." c) -> ()
              | _ -> unseen_ok := false
            end
          done;
@@ -337,7 +349,7 @@ let verdict case impl =
            let skipped = List.fold_left (fun a t -> a + int_of_nat (skipped_labels (conn_init false) (labels_of None t))) 0 conns in
            Printf.sprintf "diff skipped-labels=%d model=%s" skipped
              (String.concat "," (List.mapi (fun i _ ->
-                if seen.(i + 1) = 0 then "err:pool/broken.*"
+                if seen.(i + 1) = 0 then "err:pool/ChannelError/root-cause"
                 else if seen.(i + 1) = 1 then
                   (let st = List.find (fun st -> outcome_of (n_of_rid (i + 1)) st.c_done <> None || true) finals in
                    ignore st;
